@@ -58,6 +58,15 @@ pub fn c10(tier: &str, seed: u64) -> Vec<Case> {
                 c = c.fail("layout-read", format!("{}: parsing the RFC encoding does not give the field values back: {}", KIND_NAMES[kind], &out[..out.len().min(200)]));
             }
             v.push(c);
+            // (3) the same with a preceding record whose names the encoder may point into (receivers must
+            // accept compression pointers in any embedded name)
+            let mut rng2 = Rng::new(seed ^ (kind as u64) << 8);
+            let two = format!("P 7 32768 0 0 o0 0 2 {} {} 0 0", text::rr(&ResourceRecord::new(g.name(), CLASS::IN, 1, RData::NS(NS(g.name())))), rr_text);
+            let (enc, _) = refenc::encode_packet(&two, Compress::Random(&mut rng2, 6), false, None);
+            let out = parse_out(&enc);
+            let mut c = Case::new(format!("parse {}", text::hex(&enc)), out.clone()).tag(&tag).tag("decode-compressed");
+            if out != format!("ok {}", two) { c = c.fail("layout-read-compressed", format!("{}: the RFC encoding with compressed names does not give the field values back", KIND_NAMES[kind])); }
+            v.push(c);
         }
     }
     // structural rules: encodings that break them must be rejected
